@@ -77,6 +77,14 @@ tasks:
     cmds:
       - defer: '"$VERIF_ARGVDUMP" "{{.O}}" {{shellQuote .V}}'
       - 'true'
+  splitloop:
+    cmds:
+      - for: {var: X, split: ', '}
+        cmd: printf '%s\n' {{shellQuote .ITEM}} >> "$OUT"
+  splitcomma:
+    cmds:
+      - for: {var: X, split: ','}
+        cmd: printf '%s\n' {{shellQuote .ITEM}} >> "$OUT"
   afterloop:
     vars: {WORDS: 'p q'}
     cmds:
@@ -235,6 +243,52 @@ func c19VarUnit() *Unit {
 			if rc != 0 || !ok || len(got) != 2 || got[0] != pair[0] || got[1] != pair[1] {
 				add(vlab.V("C19", "quoted_value_not_verbatim", "after_loop_with_same_iterator_name", fmt.Sprintf("task afterloop X=%q ITEM=%q: the command after the loops received %s (status %d %q)", pair[0], pair[1], short(got), rc, firstN(se, 120))), args)
 			}
+		}
+		// a value that is looped over with an explicit separator reaches the command item by item,
+		// each item as one identical argument (empty items included)
+		for _, c := range []struct{ task, sep, val string }{
+			{"splitloop", ", ", "a b, c"}, {"splitloop", ", ", "x,y, z w"}, {"splitloop", ", ", "one"}, {"splitloop", ", ", "a, , b"},
+			{"splitcomma", ",", "x,,y z"}, {"splitcomma", ",", ",lead"}, {"splitcomma", ",", "trail,"}, {"splitcomma", ",", "a b,c  d"},
+		} {
+			os.Remove(out)
+			args := []string{c.task, "X=" + c.val}
+			_, se, rc := RunCLI(dir, []string{"OUT=" + out, "VERIF_ARGVDUMP=" + os.Getenv("VERIF_ARGVDUMP")}, "", args...)
+			n++
+			var got []string
+			if b, err := os.ReadFile(out); err == nil && len(b) > 0 {
+				got = strings.Split(strings.TrimSuffix(string(b), "\n"), "\n")
+			}
+			want := strings.Split(c.val, c.sep)
+			if rc != 0 || !eqVec(got, want) {
+				add(vlab.V("C19", "quoted_value_not_verbatim", "loop_items_split_by_separator", fmt.Sprintf("task %s X=%q (split %q): the commands received %s, expected %s (status %d %q)", c.task, c.val, c.sep, short(got), short(want), rc, firstN(se, 120))), args)
+			}
+		}
+		// the same Taskfile with a root-level dotenv entry (the file does not exist): arguments after
+		// '--' and NAME=value assignments still arrive
+		{
+			tf2 := strings.Replace(c19Taskfile, "version: '3'\n", "version: '3'\ndotenv: ['.env-does-not-exist']\n", 1)
+			os.WriteFile(filepath.Join(dir, "Taskfile.yml"), []byte(tf2), 0o644)
+			for _, vec := range [][]string{{"a b"}, {"x", "y z"}, {"$(id)", "*"}} {
+				os.Remove(out)
+				args := append([]string{"fwd", "--"}, vec...)
+				_, se, rc := RunCLI(dir, []string{"OUT=" + out, "VERIF_ARGVDUMP=" + os.Getenv("VERIF_ARGVDUMP")}, "", args...)
+				n++
+				got, ok := readArgv(out)
+				if rc != 0 || !ok || !eqVec(got, vec) {
+					add(vlab.V("C19", "cli_args_not_verbatim", "with_root_dotenv", fmt.Sprintf("root dotenv entry present, task fwd -- %q: the command received %s (status %d %q)", vec, short(got), rc, firstN(se, 120))), args)
+				}
+			}
+			for _, val := range []string{"plain", "a b", "c'd"} {
+				os.Remove(out)
+				args := []string{"quoted", "X=" + val}
+				_, se, rc := RunCLI(dir, []string{"OUT=" + out, "VERIF_ARGVDUMP=" + os.Getenv("VERIF_ARGVDUMP")}, "", args...)
+				n++
+				got, ok := readArgv(out)
+				if rc != 0 || !ok || len(got) != 1 || got[0] != val {
+					add(vlab.V("C19", "quoted_value_not_verbatim", "with_root_dotenv", fmt.Sprintf("root dotenv entry present, task quoted X=%q: the command received %s (status %d %q)", val, short(got), rc, firstN(se, 120))), args)
+				}
+			}
+			os.WriteFile(filepath.Join(dir, "Taskfile.yml"), []byte(c19Taskfile), 0o644)
 		}
 		// a value that comes from the process environment instead of a NAME=value argument
 		for _, val := range []string{"plain", "a=b", "-Dkey=va lue", "http://h/p?a=1&b=2", "=", "a b", "$(id)", "tail="} {
